@@ -5,10 +5,11 @@ CONSTANTS
   Dev = {}
   JitClasses = {"zero"}
   Plan = "two"
-  Kinds = {"good", "badauth", "wrongid", "wrongsrc", "reqcode"}
+  Kinds = {"good", "wrongsrc", "badauth"}
   MaxFlips = 1
+  MaxReplies = 2
   AllowCancel = TRUE
   AllowDestroy = TRUE
-  PortReuse = TRUE
-INVARIANTS ICompleteOnce INoTxAfterDone ITxBound ISlots IArmed IMatch IDelivered IFailover IQuiescent IDestroyed IMemSafe IDuration
+  PortReuse = FALSE
+INVARIANTS ICompleteOnce INoTxAfterDone ITxBound ISlots IArmed IMatch IDelivered IFailover IQuiescent IDestroyed IMemSafe INas IDuration
 CHECK_DEADLOCK FALSE
